@@ -1,6 +1,7 @@
 package drv
 
 import (
+	"verifharness/wsraw"
 	"sort"
 	"bufio"
 	"encoding/json"
@@ -411,6 +412,25 @@ func (ps *ProtoSession) Step(k int) (Reaction, error) {
 	i, s, cfg := ps.I, ps.S, ps.S.Cfg
 	st := s.Steps[k]
 	kind := str(st, "k", "other")
+	if kind == "reout" {
+		// legacy: the client sends a second RDG_OUT_DATA request under the tunnel's identifier (from the address it uses
+		// anyway) and reads on there; the tunnel is the same tunnel, with the same token and the same address binding
+		t := ps.T
+		if t == nil || t.In == nil || t.Exited || t.Broken {
+			return Reaction{}, nil
+		}
+		m := i.P.Mark()
+		oo := ps.PC.OpenOpts()
+		o2, _, err := wsraw.DialLegacyOut(i.dialOpts(oo, t.Cid))
+		if err != nil || o2 == nil {
+			return Reaction{}, nil
+		}
+		i.P.Wait(m, 5*time.Second, func(e gw.Event) bool { return e.Cid == t.Cid && e.Pt == "legacy.out.published" })
+		t.Out.WaitEOF(2 * time.Second)
+		t.Out.Close()
+		t.Out = o2
+		return Reaction{}, nil
+	}
 	if kind == "ownerget" {
 		// meanwhile the browser that downloaded this tunnel's connection file asks for /connect again, from ITS address
 		// and with its session cookie (the owner reloading the page): not this tunnel's business
